@@ -1299,11 +1299,25 @@ func simSharedDoneDeps(g gcase, adj [][]int, qs []int, hidden bool, level int) m
 }
 
 // simFifoRevdeps replays "first-in-first-out queue, depth fixed at first push" for hidden=false on
-// the model, for a few orders of the initial children (Please iterates a Go map there). Keys only.
+// the model, for every order of the initial children (Please iterates a Go map there). Keys only.
 func simFifoRevdeps(g gcase, adj [][]int, qs []int, level int) []map[string]bool {
 	radj := reverse(adj)
+	// all orders in which the hidden children of each queried visible target can be pushed
+	kidOrders := make([][][]int, len(qs))
+	for i, q := range qs {
+		var cs []int
+		if !g.T[q].Hidden {
+			for c, t := range g.T {
+				if t.Hidden && t.Rule == q {
+					cs = append(cs, c)
+				}
+			}
+		}
+		kidOrders[i] = orders(cs)
+	}
 	var results []map[string]bool
-	for variant := 0; variant < 6; variant++ {
+	choice := make([]int, len(qs))
+	for {
 		type node struct{ t, depth int }
 		var queue []node
 		done := map[int]bool{}
@@ -1313,27 +1327,10 @@ func simFifoRevdeps(g gcase, adj [][]int, qs []int, level int) []map[string]bool
 				queue = append(queue, node{t, d})
 			}
 		}
-		for _, q := range qs {
+		for i, q := range qs {
 			push(q, 0)
-			if !g.T[q].Hidden {
-				var cs []int
-				for c, t := range g.T {
-					if t.Hidden && t.Rule == q {
-						cs = append(cs, c)
-					}
-				}
-				// rotate / reverse to cover map orders
-				for k := 0; k < variant%3 && len(cs) > 0; k++ {
-					cs = append(cs[1:], cs[0])
-				}
-				if variant >= 3 {
-					for a, b := 0, len(cs)-1; a < b; a, b = a+1, b-1 {
-						cs[a], cs[b] = cs[b], cs[a]
-					}
-				}
-				for _, c := range cs {
-					push(c, 0)
-				}
+			for _, c := range kidOrders[i][choice[i]] {
+				push(c, 0)
 			}
 		}
 		out := map[string]bool{}
@@ -1359,8 +1356,36 @@ func simFifoRevdeps(g gcase, adj [][]int, qs []int, level int) []map[string]bool
 			}
 		}
 		results = append(results, out)
+		// next combination
+		k := 0
+		for k < len(qs) {
+			choice[k]++
+			if choice[k] < len(kidOrders[k]) {
+				break
+			}
+			choice[k] = 0
+			k++
+		}
+		if k == len(qs) || len(results) >= 216 {
+			break
+		}
 	}
 	return results
+}
+
+// orders returns every permutation of a short list (at least the empty one).
+func orders(xs []int) [][]int {
+	if len(xs) <= 1 {
+		return [][]int{append([]int(nil), xs...)}
+	}
+	var out [][]int
+	for i := range xs {
+		rest := append(append([]int(nil), xs[:i]...), xs[i+1:]...)
+		for _, o := range orders(rest) {
+			out = append(out, append([]int{xs[i]}, o...))
+		}
+	}
+	return out
 }
 
 // ---------------------------------------------------------------------------------------------
@@ -1551,6 +1576,54 @@ func (s runSink) Violation(key, what string, witness any) {
 	s.r.Violation(key, what, witness, s.idx)
 }
 
+// A candidate is one batch's witness for a key.
+type candidate struct {
+	v     childViol
+	batch int
+	score score
+}
+
+// score orders witnesses: minimised first, then fewest queried labels, fewest targets, lowest graph index.
+type score [4]int
+
+func (a score) less(b score) bool {
+	for i := range a {
+		if a[i] != b[i] {
+			return a[i] < b[i]
+		}
+	}
+	return false
+}
+
+func witnessScore(v childViol) score {
+	sc := score{1, 99, 999, v.Idx}
+	m, _ := v.Witness.(map[string]any)
+	if m == nil {
+		return sc
+	}
+	w := m
+	if mm, ok := m["minimal"].(map[string]any); ok {
+		sc[0] = 0
+		w = mm
+	}
+	if q, ok := w["query"].(map[string]any); ok {
+		n := 0
+		if ls, ok := q["targets"].([]any); ok {
+			n += len(ls)
+		}
+		if ls, ok := q["to"].([]any); ok {
+			n += len(ls)
+		}
+		sc[1] = n
+	}
+	if mod, ok := w["model"].(map[string]any); ok {
+		if ts, ok := mod["targets"].([]any); ok {
+			sc[2] = len(ts)
+		}
+	}
+	return sc
+}
+
 var fatalRe = regexp.MustCompile(`(?m)^(panic:|fatal error:).*$`)
 
 const batchSize = 25
@@ -1559,7 +1632,7 @@ func TestC23(t *testing.T) {
 	iplib.Quiet()
 	r := lib.Start("C23")
 	defer lib.End(t, r)
-	r.Rule = "dependency graphs of 2-9 rules (each a visible target plus 0-3 hidden `_x#tag` children reachable from it by intra-rule edges), rule labels a random permutation of a mixed-case pool over 1-3 packages (so label order is unrelated to topology), shapes dag/chain-with-shortcuts/ladder/fan-in, optional require/provide re-routing to hidden children or later rules; per graph: somepath on all ordered pairs (100 sampled above that) with hidden on/off plus multi-label queries, deps and revdeps for every target (10 sampled above that) x 3 of the levels {0,1,2,3,-1} x hidden on/off plus two-label queries. Distinct by rendered graph; non-trivial = some target is reachable from another by paths of two different lengths"
+	r.Rule = "dependency graphs of 2-9 rules (each a visible target plus 0-3 hidden `_x#tag` children reachable from it by intra-rule edges), rule labels a random permutation of a mixed-case pool over 1-3 packages (so label order is unrelated to topology), shapes dag/chain-with-shortcuts/ladder/fan-in, optional require/provide re-routing to hidden children or later rules; per graph: somepath on all ordered pairs (100 sampled above that) with hidden on/off plus multi-label queries, deps and revdeps for every target (10 sampled above that) x 3 of the levels {0,1,2,3,-1} x hidden on/off plus two-label queries; a thin end-to-end sample renders further graphs as BUILD files of genrules and asks the plz binary (3 somepath pairs, deps and revdeps --level 2 of one target, hidden on/off). Distinct by rendered graph; non-trivial = some target is reachable from another by paths of two different lengths"
 	r.Assumes = []string{
 		"graphs are built through core.NewBuildTarget/AddDependency/AddRequire/AddProvide/Package.AddTarget/ResolveDependencies; the model's resolved edges are cross-checked against BuildTarget.Dependencies() for every graph",
 		"hidden on: every edge costs one step and all targets are listed (as the repository's own unit tests fix it); hidden off: edges inside one rule are free, hidden targets are not listed by deps and stand for their rule in revdeps",
@@ -1581,11 +1654,13 @@ func TestC23(t *testing.T) {
 		}
 	}
 	t0 := time.Now() // reported in the evidence only
-	nGraphs := r.Pick(1500, 100000)
+	nGraphs := r.Pick(1500, 40000)
 	nBatches := (nGraphs + batchSize - 1) / batchSize
 	scratch := r.Scratch()
 	var minMu sync.Mutex
 	minimised := map[string]bool{}
+	best := map[string]candidate{}
+	nViol := map[string]int{}
 	r.ForEach(stream, nBatches, 8, func(bi int, _ *rand.Rand) {
 		lo, hi := bi*batchSize, (bi+1)*batchSize
 		if hi > nGraphs {
@@ -1655,26 +1730,34 @@ func TestC23(t *testing.T) {
 				minMu.Unlock()
 			}
 		}
-		// keep the minimised witness of a key even if an unminimised one from another batch arrives first
+		// collect; the best witness per key (minimised, fewest labels, fewest targets, lowest index) is reported after the stream
+		minMu.Lock()
 		for _, v := range co.Viols {
-			m, _ := v.Witness.(map[string]any)
-			if m != nil && m["minimal"] == nil {
-				minMu.Lock()
-				have := minimised[v.Key]
-				minMu.Unlock()
-				if have {
-					r.Obs("violating_cases", 1)
-					continue
-				}
+			cand := candidate{v: v, batch: bi, score: witnessScore(v)}
+			if old, ok := best[v.Key]; !ok || cand.score.less(old.score) {
+				best[v.Key] = cand
 			}
-			r.Violation(v.Key, v.What, v.Witness, bi)
+			nViol[v.Key]++
 		}
+		minMu.Unlock()
 	})
+	{
+		keys := make([]string, 0, len(best))
+		for k := range best {
+			keys = append(keys, k)
+		}
+		sort.Strings(keys)
+		for _, k := range keys {
+			c := best[k]
+			r.Violation(c.v.Key, c.v.What, c.v.Witness, c.batch)
+			r.Obs("violating_cases", int64(nViol[k]-1))
+		}
+	}
 
 	r.Extra("wall_s_in_process_part", time.Since(t0).Seconds())
 	// Thin end-to-end sample: the same models as BUILD files, the real binary.
 	bin := lib.PlzBin(false)
-	r.ForEach("e2e", r.Pick(15, 300), 8, func(i int, rng *rand.Rand) {
+	r.ForEach("e2e", r.Pick(12, 150), 8, func(i int, rng *rand.Rand) {
 		g := genGraph(rng)
 		dir := filepath.Join(scratch, fmt.Sprintf("e2e.%d", i), "repo")
 		if err := lib.WriteTree(dir, render(g)); err != nil {
